@@ -61,6 +61,18 @@ def constructed(depth):
         for i in pair:
             ms.add_index_sig(IndexSignature.from_index(i))
         out.append(('index.' + name, project_of(ms), False))
+    # two classes with the same name from different modules in one
+    # signature, both orders
+    from django.db.models.functions import Lower
+    VLower = V.vendor_lower()
+    for name, pair in (('same-named-classes', (Lower('a'), VLower('a'))),
+                       ('same-named-classes-rev', (VLower('a'),
+                                                   Lower('a')))):
+        ms = base_model_sig()
+        for n, ex in enumerate(pair):
+            ms.add_index_sig(IndexSignature.from_index(
+                models.Index(ex, name='ix_same%d' % n)))
+        out.append(('index.' + name, project_of(ms), False))
     for label, con in V.constraint_variants(depth):
         ms = base_model_sig()
         ms.add_constraint_sig(ConstraintSignature.from_constraint(con))
